@@ -8,6 +8,7 @@ import (
 
 	"verif/harness/cachex"
 	"verif/harness/clockx"
+	"verif/harness/concx"
 	"verif/harness/crashx"
 	"verif/harness/fidx"
 	"verif/harness/forge"
@@ -26,6 +27,9 @@ import (
 var commands = map[string]func(args []string){}
 
 func init() {
+	commands["conc"] = concx.Run
+	commands["conc-clock"] = concx.ClockCmd
+	commands["conc-child"] = concx.Child
 	commands["lock"] = lockx.Run
 	commands["lock-worker"] = lockx.Worker
 	commands["fidelity"] = fidx.Run
